@@ -81,7 +81,7 @@ Record conn : Type := {
 Record app : Type := {
   a_id : Z; a_auth : bool; a_acct : bool;
   a_ready : bool;
-  a_waiting : list Z        (* hop-by-hop ids of callers blocked in send_request *)
+  a_waiting : list (Z * Z)  (* (hop-by-hop id, deadline) of callers blocked in send_request *)
 }.
 
 Record cfg : Type := {
@@ -461,6 +461,9 @@ Definition recv_dpa (n : node) (cid : nat) : node * list output :=
   | None => (n1, [])
   end.
 
+Definition set_awaiting (a : app) (l : list (Z * Z)) : app :=
+  {| a_id := a_id a; a_auth := a_auth a; a_acct := a_acct a; a_ready := a_ready a; a_waiting := l |}.
+
 (* ---- application routing ---------------------------------------------------------------------- *)
 Definition pw_add (pw : list (string * list (Z * Z))) (host : string) (k : Z * Z) : list (string * list (Z * Z)) :=
   if List.existsb (fun e => String.eqb (fst e) host) pw
@@ -509,14 +512,21 @@ Definition recv_app_request (n : node) (cid : nat) (m : msg) : node * list outpu
       end
   end.
 
-(* _receive_app_answer + Application.receive_answer *)
+(* _receive_app_answer + Application.receive_answer (as repaired: the entry is dropped once the
+   answer has arrived) *)
 Definition recv_app_answer (n : node) (m : msg) : node * list output :=
   match List.find (fun x => let '(h, e, _) := x in (h =? m_hbh m) && (e =? m_e2e m)) (n_app_waiting n) with
   | None => (n, [])
   | Some (_, _, i) =>
       match List.nth_error (n_apps n) i with
       | None => (n, [])
-      | Some a => if mem_z (m_hbh m) (a_waiting a) then (n, [OAnswerTo i m]) else (n, [OUnexpected i m])
+      | Some a =>
+          let n1 := set_waiting n (List.filter (fun x => let '(h, e, _) := x in negb ((h =? m_hbh m) && (e =? m_e2e m))) (n_app_waiting n))
+                                (n_peer_waiting n) (n_origin_waiting n) (n_sent_answers n) in
+          if mem_z (m_hbh m) (List.map fst (a_waiting a))
+          then (set_apps n1 (upd_app (n_apps n1) i (fun a =>
+                  set_awaiting a (List.filter (fun w => negb (fst w =? m_hbh m)) (a_waiting a)))), [OAnswerTo i m])
+          else (n1, [OUnexpected i m])
       end
   end.
 
@@ -750,8 +760,9 @@ Inductive event : Type :=
 | EStall (cid : nat) (b : bool)                     (* socket stops / resumes accepting writes *)
 | ETick (dt : Z)                                   (* the clock advances by dt seconds *)
 | EAppAnswer (app : nat) (m : omsg)                 (* Application.send_answer *)
-| EAppRequest (app : nat) (m : omsg) (realm : pres string) (pick : nat)  (* Application.send_request (blocking) *)
-| EAppTimeout (app : nat) (hbh : Z)                 (* the blocked caller times out *)
+| EAppRequest (app : nat) (m : omsg) (realm : pres string) (pick : nat) (timeout : Z)  (* Application.send_request (blocking) *)
+| EStop (force : bool)                             (* Node.stop() is called: DPR to every ready peer unless forced *)
+| EStopFinish (tclose : Z) (tend : Z)              (* the waiting ends: remaining connections are closed at tclose; stop returns at tend *)
 | EStart.                                          (* Node.start(): persistent peers are dialled *)
 
 (* Application.send_answer -> Node.route_answer (as repaired: the host whose waiting set holds
@@ -806,8 +817,6 @@ Fixpoint least_used (l : list peer) : option peer :=
               end
   end.
 
-Definition set_awaiting (a : app) (l : list Z) : app :=
-  {| a_id := a_id a; a_auth := a_auth a; a_acct := a_acct a; a_ready := a_ready a; a_waiting := l |}.
 
 (* the I/O thread comes back to select only after: flushing what earlier threads queued, one pass
    of timers / reconnects, and flushing what that pass queued (DWR, CER) *)
@@ -824,7 +833,9 @@ Definition settle' (n : node) (ds : dials) : node * list output :=
 Definition step (n : node) (ds : dials) (e : event) : node * list output :=
   match e with
   | EAccept hbh0 =>
-      if n_stopping n then (n, [])       (* socket closed at once, nothing registered *)
+      if n_stopping n then
+        (* the socket is closed at once, nothing is registered (the harness still numbers the attempt) *)
+        (set_misc n (n_stopping n) (S (n_next_cid n)) (n_e2e n), [OClose (n_next_cid n) R_SHUTDOWN])
       else
         let cid := n_next_cid n in
         let c := new_conn cid true SConnected "" (n_now n) hbh0 in
@@ -885,14 +896,16 @@ Definition step (n : node) (ds : dials) (e : event) : node * list output :=
       (* the I/O thread sleeps in select until its deadline; each wake-up runs one iteration *)
       let target := n_now n + dt in
       (fix wake (fuel : nat) (n : node) (ds : dials) (acc : list output) : node * list output :=
+         let expire := fun (n : node) =>
+           set_apps n (List.map (fun a => set_awaiting a (List.filter (fun w => target <? snd w) (a_waiting a))) (n_apps n)) in
          match fuel with
-         | O => (set_time n target (n_io_deadline n), acc)
+         | O => (expire (set_time n target (n_io_deadline n)), acc)
          | S f =>
              if n_io_deadline n <=? target then
                let n1 := set_time n (n_io_deadline n) (n_io_deadline n) in
                let '(n2, o2, ds2) := settle n1 ds in
                wake f n2 ds2 (acc ++ o2)%list
-             else (set_time n target (n_io_deadline n), acc)
+             else (expire (set_time n target (n_io_deadline n)), acc)
          end) (S (Z.to_nat dt)) n ds []
   | EAppAnswer i m =>
       match route_answer n m with
@@ -901,7 +914,7 @@ Definition step (n : node) (ds : dials) (e : event) : node * list output :=
           let '(n2, o2) := send_message n1 cid m in
           let '(n3, o3) := settle' n2 ds in (n3, (o2 ++ o3)%list)
       end
-  | EAppRequest i m realm pick =>
+  | EAppRequest i m realm pick timeout =>
       (* end-to-end id: from the node's generator unless the caller set one *)
       let '(n0, e2e) := (if o_e2e m =? 0 then (set_misc n (n_stopping n) (n_next_cid n) (seq_next (n_e2e n)), seq_next (n_e2e n))
                          else (n, o_e2e m)) in
@@ -910,7 +923,7 @@ Definition step (n : node) (ds : dials) (e : event) : node * list output :=
       | Some usable =>
           let chosen := match usable with
                         | [p] => Some p
-                        | _ => List.nth_error usable pick
+                        | _ => List.nth_error usable (Nat.modulo pick (List.length usable))
                         end in
           match chosen with
           | None => (n0, [ONotRoutable])
@@ -928,15 +941,40 @@ Definition step (n : node) (ds : dials) (e : event) : node * list output :=
                                    o_hbh := hbh; o_e2e := e2e; o_result := None; o_failed := []; o_tag := o_tag m |} in
                       let n2 := set_waiting n1 ((List.filter (fun x => let '(h, e, _) := x in negb ((h =? hbh) && (e =? e2e))) (n_app_waiting n1)) ++ [(hbh, e2e, i)])%list
                                             (n_peer_waiting n1) (n_origin_waiting n1) (n_sent_answers n1) in
-                      let n3 := set_apps n2 (upd_app (n_apps n2) i (fun a => set_awaiting a (a_waiting a ++ [hbh])%list)) in
+                      let n3 := set_apps n2 (upd_app (n_apps n2) i (fun a => set_awaiting a (a_waiting a ++ [(hbh, n_now n2 + timeout)])%list)) in
                       let '(n4, o4) := send_message n3 cid m' in
                       let '(n5, o5) := settle' n4 ds in (n5, (o4 ++ o5)%list)
                   end
               end
           end
       end
-  | EAppTimeout i hbh =>
-      (set_apps n (upd_app (n_apps n) i (fun a => set_awaiting a (remove_z hbh (a_waiting a)))), [])
+  | EStop force =>
+      let n0 := set_misc n true (n_next_cid n) (n_e2e n) in
+      if force then (n0, [])
+      else
+        let '(n1, o1) :=
+          (fix go (cids : list nat) (n : node) (acc : list output) : node * list output :=
+             match cids with
+             | [] => (n, acc)
+             | c :: r => match get_conn n c with
+                         | Some cn => if is_ready_state (c_state cn)
+                                      then let '(n', o') := send_dpr n c in go r n' (acc ++ o')%list
+                                      else go r n acc
+                         | None => go r n acc
+                         end
+             end) (List.map c_id (n_conns n0)) n0 [] in
+        let '(n2, o2) := settle' n1 ds in (n2, (o1 ++ o2)%list)
+  | EStopFinish tclose tend =>
+      (* the I/O thread sees the stop flag at its wake-up tclose: every remaining connection is closed
+         with NODE_SHUTDOWN; listeners are closed and the applications stopped before stop() returns at tend *)
+      let n0 := set_time n tclose (n_io_deadline n) in
+      let '(n1, o1) :=
+        (fix go (cids : list nat) (n : node) (acc : list output) : node * list output :=
+           match cids with
+           | [] => (n, acc)
+           | c :: r => let '(n', o') := close_conn n c R_SHUTDOWN in go r n' (acc ++ o')%list
+           end) (List.map c_id (n_conns n0)) n0 [] in
+      (set_time (set_apps n1 (List.map (fun a => set_awaiting a []) (n_apps n1))) tend (n_io_deadline n1), o1)
   | EStart =>
       let '(n1, o1, ds1) :=
         (fix go (names : list string) (n : node) (ds : dials) (acc : list output) : node * list output * dials :=
